@@ -133,3 +133,30 @@ N("C17", "find with explicit 0", KW, "    start = data.find(keyword)\n", "    st
 N("C17", "advance via end", KW, "start = data.find(keyword, start + len(keyword))", "start = data.find(keyword, end)")
 N("C17", "loop while start != -1 style", KW, "while start >= 0:", "while start > -1:")
 N("C17", "De Morgan boundary", KW, "        if (start == 0 or not data[start - 1 : start].isalnum()) and (\n            end == len(data) or not data[end : end + 1].isalnum()\n        ):", "        if not ((start != 0 and data[start - 1 : start].isalnum()) or (\n            end != len(data) and data[end : end + 1].isalnum()\n        )):")
+
+# ------------------------------------------------------------------ C18
+B("C18", "@decoder line deleted", D + "chr.py", "@decoder\ndef find_chr", "def find_chr", "R2-census")
+B("C18", "marker renamed on the writer side", REG, "    func._decoder = True\n", "    func._is_decoder = True\n", "R1-marker")
+B("C18", "marker renamed on the reader side", REG, 'if hasattr(function, "_decoder"):', 'if hasattr(function, "decoder"):', "R1-marker")
+B("C18", "include test inverted", REG, "if include and submod_info.name not in include:", "if include and submod_info.name in include:", "R3-filter")
+B("C18", "exclude test inverted", REG, "if exclude and submod_info.name in exclude:", "if exclude and submod_info.name not in exclude:", "R3-filter")
+B("C18", "exclude only honoured with include", REG, "if exclude and submod_info.name in exclude:", "if include and exclude and submod_info.name in exclude:", "R3-filter")
+B("C18", "os.listdir instead of os.walk", REG, "    for subdir, _, files in os.walk(directory):\n        for file_name in files:\n", "    for subdir, files in [(directory, os.listdir(directory))]:\n        for file_name in files:\n", "R4-keyword-walk")
+B("C18", "label is the full path", REG, "partial(find_keywords, file_name, keywords)", "partial(find_keywords, os.path.join(subdir, file_name), keywords)", "R4-keyword-walk")
+B("C18", "blank lines kept", REG, '                keywords.discard(b"")\n', "", "R4-keyword-walk")
+B("C18", "text mode", REG, 'open(os.path.join(subdir, file_name), "rb")', 'open(os.path.join(subdir, file_name), "r")', "R4-keyword-walk")
+B("C18", "build_registry ignores directory", REG, "keywords = get_keywords(directory)", "keywords = get_keywords()", "R5-config")
+B("C18", "build_registry drops exclude", REG, "get_analyzers(include=include, exclude=exclude)", "get_analyzers(include=include)", "R5-config")
+B("C18", "decoder returns nothing", REG, "    func._decoder = True\n    return func\n", "    func._decoder = True\n", "R1-marker")
+B("C18", "empty files registered", REG, "            if not keywords:\n                continue\n", "", "R4-keyword-walk")
+B("C18", "directory also filters analyzers", REG, "keywords.extend(get_analyzers(include=include, exclude=exclude))", "keywords.extend(get_analyzers(include=include, exclude=exclude) if not directory else [])", "R5-config")
+B("C18", "CLI ignores --keywords", MAIN, "decoders = build_registry(args.keywords)", "decoders = build_registry()", "R5-config")
+B("C18", "decoder imported by name into another module", D + "reverse.py", "from multidecoder.hit import find_and_deobfuscate\n", "from multidecoder.hit import find_and_deobfuscate\nfrom multidecoder.decoders.concat import find_concat  # noqa: F401\n", "R2-census")
+B("C18", "hidden files skipped", REG, "        for file_name in files:\n", "        for file_name in files:\n            if file_name.startswith(\".\") or \".\" in file_name:\n                continue\n", "R4-keyword-walk")
+N("C18", "filter merged into one condition", REG, "        if include and submod_info.name not in include:\n            continue\n        if exclude and submod_info.name in exclude:\n            continue\n", "        if (include and submod_info.name not in include) or (exclude and submod_info.name in exclude):\n            continue\n")
+N("C18", "sorted file enumeration", REG, "        for file_name in files:\n", "        for file_name in sorted(files):\n")
+N("C18", "sorted keyword list", REG, "partial(find_keywords, file_name, keywords)", "partial(find_keywords, file_name, sorted(keywords))")
+N("C18", "setattr marker", REG, "    func._decoder = True\n", '    setattr(func, "_decoder", True)\n')
+B("C07", "decode_end bookkeeping under a depth guard", MD, "                decode_end = hit.end + offset\n                self.scan_node(hit, depth_limit - 1)\n", "                if depth_limit > 1:\n                    decode_end = hit.end + offset\n                    self.scan_node(hit, depth_limit - 1)\n", "R3-control-independence")
+N("C07", "skip the recursive call that would return at once", MD, "                self.scan_node(hit, depth_limit - 1)\n", "                if depth_limit > 1:\n                    self.scan_node(hit, depth_limit - 1)\n")
+B("C07", "skip the recursive call one level too early", MD, "                self.scan_node(hit, depth_limit - 1)\n", "                if depth_limit > 2:\n                    self.scan_node(hit, depth_limit - 1)\n", "R3-control-independence")
